@@ -28,8 +28,43 @@ def _norm(name: str) -> str:
             're.PatternError': 're.error'}.get(name, name.split('.')[-1])
 
 
+def _is_translate(n: ast.AST) -> bool:
+    return isinstance(n, ast.Call) and dotted(n.func).split('.')[-1] == 'translate_pattern'
+
+
+def translate_helpers(model: Model) -> dict[str, FuncInfo]:
+    """Methods/functions outside elementpath/regex that wrap translate_pattern and are themselves
+    called (by simple name or as self.<name>) from at least two other functions: the regex
+    functions then reach the translator through the wrapper, and the wrapper's call sites are
+    the translation sites of its callers."""
+    cands: dict[str, FuncInfo] = {}
+    for f in model.all_functions():
+        if f.module.name.startswith('elementpath.regex'):
+            continue
+        if any(_is_translate(n) for n in walk_local(f.node)):
+            cands[f.name] = f
+    out: dict[str, FuncInfo] = {}
+    for name, h in cands.items():
+        users = 0
+        for f in model.all_functions():
+            if f is h or f.module.name.startswith('elementpath.regex'):
+                continue
+            if any(isinstance(n, ast.Call) and dotted(n.func).split('.')[-1] == name
+                   for n in walk_local(f.node)):
+                users += 1
+        if users >= 2:
+            out[name] = h
+    return out
+
+
+def _is_site(n: ast.AST, helpers: dict[str, FuncInfo]) -> bool:
+    return isinstance(n, ast.Call) and (
+        _is_translate(n) or dotted(n.func).split('.')[-1] in helpers)
+
+
 def r12_1(ctx, counts: dict[str, int]) -> RuleResult:
     model: Model = ctx.model
+    helpers = translate_helpers(model)
     res = RuleResult(
         'R12.1', 'REGEX-ERROR-SIBLINGS',
         'Instances: functions (outside elementpath/regex) that call translate_pattern at run '
@@ -42,11 +77,16 @@ def r12_1(ctx, counts: dict[str, int]) -> RuleResult:
     for f in model.all_functions():
         if f.module.name.startswith('elementpath.regex'):
             continue
-        calls = [n for n in walk_local(f.node) if isinstance(n, ast.Call)
-                 and dotted(n.func).split('.')[-1] == 'translate_pattern']
+        if f in helpers.values():
+            continue    # the wrapper's callers carry the conversion obligation
+        calls = [n for n in walk_local(f.node) if _is_site(n, helpers)]
         if calls:
             callers.append((f, calls))
     counts['translate_pattern_callers'] = len(callers)
+    if helpers:
+        res.notes.append('translate_pattern is reached through the wrapper(s) '
+                         f'{sorted(h.key for h in helpers.values())}; their call sites are the '
+                         'translation sites')
     per_func: dict[FuncInfo, set[str]] = {}
     info: dict[FuncInfo, tuple] = {}
     for f, calls in callers:
@@ -58,8 +98,7 @@ def r12_1(ctx, counts: dict[str, int]) -> RuleResult:
         # calls compiling the translated pattern: re.X(python_pattern…) where the first arg is
         # a name assigned from translate_pattern
         pat_names = {t.id for n in walk_local(f.node) if isinstance(n, ast.Assign)
-                     and isinstance(n.value, ast.Call)
-                     and dotted(n.value.func).split('.')[-1] == 'translate_pattern'
+                     and _is_translate(n.value)
                      for t in n.targets if isinstance(t, ast.Name)}
         for n in walk_local(f.node):
             if isinstance(n, ast.Call) and isinstance(n.func, ast.Attribute) \
@@ -231,8 +270,22 @@ def r12_4(ctx, counts: dict[str, int]) -> RuleResult:
             if isinstance(n, ast.Call) and dotted(n.func).split('.')[-1] == 'translate_pattern' \
                     and any(p == 'self' for p in f.params()):
                 calls.append((f, n))
-    if len(calls) < 3:
-        raise AnalysisError(f'only {len(calls)} run-time callers of translate_pattern located')
+    helpers = translate_helpers(model)
+    via = 0
+    for f in model.all_functions():
+        if f.module.name.startswith('elementpath.regex') or f in helpers.values():
+            continue
+        for n in walk_local(f.node):
+            if isinstance(n, ast.Call) and dotted(n.func).split('.')[-1] in helpers:
+                via += 1
+                res.instances.append(f'{f.key}: {stmt_text(n)[:60]} -> through the wrapper')
+                res.ok()
+    if helpers:
+        res.notes.append(f'{via} regex function call site(s) reach translate_pattern through '
+                         f'{sorted(h.key for h in helpers.values())}')
+    if len(calls) + via < 3:
+        raise AnalysisError(f'only {len(calls) + via} run-time callers of translate_pattern '
+                            f'located')
 
     def shape(c: ast.Call) -> tuple:
         named = {k.arg: stmt_text(k.value) for k in c.keywords if k.arg}
@@ -250,7 +303,7 @@ def r12_4(ctx, counts: dict[str, int]) -> RuleResult:
                              f'{"" if sh[1] else " without the XSD version"} while its sibling regex '
                              f'functions pass {want[0]} including self.parser.xsd_version: under an '
                              f'XSD 1.1 parser this function rejects patterns its siblings accept'))
-    counts['translate_calls'] = len(calls)
+    counts['translate_calls'] = len(calls) + via
     return res
 
 
@@ -273,12 +326,17 @@ def r12_5(ctx, counts: dict[str, int]) -> RuleResult:
     if not funcs:
         raise AnalysisError('function bound to fn:tokenize not located')
     n = 0
+    helpers = translate_helpers(model)
     for f in sorted(funcs, key=lambda q: q.key):
-        translated = {t.id for st in walk_local(f.node) if isinstance(st, ast.Assign)
+        via_helper = {t.id for st in walk_local(f.node) if isinstance(st, ast.Assign)
+                      and isinstance(st.value, ast.Call)
+                      and dotted(st.value.func).split('.')[-1] in helpers
+                      for t in st.targets if isinstance(t, ast.Name)}
+        translated = via_helper | {t.id for st in walk_local(f.node) if isinstance(st, ast.Assign)
                       and isinstance(st.value, ast.Call)
                       and dotted(st.value.func).split('.')[-1] == 'translate_pattern'
                       for t in st.targets if isinstance(t, ast.Name)}
-        compiled = {t.id for st in walk_local(f.node) if isinstance(st, ast.Assign)
+        compiled = via_helper | {t.id for st in walk_local(f.node) if isinstance(st, ast.Assign)
                     and isinstance(st.value, ast.Call)
                     and dotted(st.value.func) in ('re.compile', 'compile')
                     and any(isinstance(a, ast.Name) and a.id in translated
